@@ -13,6 +13,8 @@ import (
 
 	"github.com/jhalter/mobius/hotline"
 	rp "github.com/jhalter/mobius/verifsim/refproto"
+	"github.com/jhalter/mobius/verifsim/simnet"
+	"github.com/jhalter/mobius/verifsim/simrt"
 )
 
 // C01: wire format fidelity of every protocol object (DESIGN §6 C01).
@@ -453,10 +455,76 @@ func genC01(rng *rand.Rand, c *Case) {
 	for i := 0; i < 40; i++ {
 		c.Ops = append(c.Ops, Op{K: "obj", N: []int{rng.Intn(len(c01Objects)), rng.Intn(1 << 30), rng.Intn(1 << 30)}})
 	}
+	if rng.Intn(8) == 0 {
+		// the one object the server emits on its own schedule and to several parties: the tracker registration, sent
+		// to every configured tracker every 300 s.  N: trackers, cycles, seed, users that log in between the cycles
+		c.Ops = append(c.Ops, Op{K: "trackers", N: []int{1 + rng.Intn(4), 1 + rng.Intn(3), rng.Intn(1 << 30), rng.Intn(3)}})
+	}
 }
+
+// c01Trackers runs a server with tracker registration enabled inside the simulator (simulated clock, the server's one
+// outgoing dial replaced by simnet.DialOut) and checks the datagram every configured tracker receives in every cycle
+// against the reference encoding of the registration the server has to make at that moment.
+func c01Trackers(w *World, op Op) {
+	rng := rand.New(rand.NewSource(int64(op.N[2])))
+	w.Cfg.Name, w.Cfg.Description = randText(rng, biasedLen(rng, 255)), randText(rng, biasedLen(rng, 255))
+	w.Cfg.EnableTrackerRegistration = true
+	for i := 0; i < op.N[0]; i++ {
+		w.Cfg.Trackers = append(w.Cfg.Trackers, fmt.Sprintf("10.9.0.%d:%d", i+1, 5499+rng.Intn(3)))
+	}
+	w.AddAccount("guest", "Guest", "", rp.AccessOf(rp.PNoAgreement))
+	got := map[string][]simnet.Datagram{}
+	simnet.Out = func(d simnet.Datagram) { got[d.To] = append(got[d.To], d) }
+	defer func() { simnet.Out = nil }()
+	si := w.StartServer()
+	if si.StartErr != nil {
+		w.Violate("c01-tracker-start", "%v", si.StartErr)
+		return
+	}
+	w.Sim.Go("srv.trackers", false, func() { si.S.VerifRegisterWithTrackers(si.Ctx) })
+	w.Sim.Go("flow", true, func() {
+		users := 0
+		for cycle := 0; cycle < op.N[1]; cycle++ {
+			simrt.Sleep(10 * time.Second) // well inside the cycle
+			port := uint16(si.S.Port)
+			want := []byte{0, 1, byte(port >> 8), byte(port), byte(users >> 8), byte(users), 0, 0}
+			want = append(want, si.S.TrackerPassID[:]...)
+			want = append(append(want, byte(len(w.Cfg.Name))), w.Cfg.Name...)
+			want = append(append(want, byte(len(w.Cfg.Description))), w.Cfg.Description...)
+			want = append(want, 0) // no tracker password configured
+			for _, t := range w.Cfg.Trackers {
+				w.Probe("tracker_registrations_expected")
+				ds := got[t]
+				if len(ds) != cycle+1 {
+					w.Violate("c01-tracker-registration-count", "cycle %d: tracker %s has received %d registrations, want %d (trackers configured: %v)", cycle, t, len(ds), cycle+1, w.Cfg.Trackers)
+					return
+				}
+				if !bytes.Equal(ds[cycle].Payload, want) {
+					w.Violate("c01-tracker-registration-bytes-differ", "cycle %d: tracker %s received %d bytes, the registration (%d users) is %d bytes (common prefix %d)", cycle, t, len(ds[cycle].Payload), users, len(want), commonPrefix(string(ds[cycle].Payload), string(want)))
+					return
+				}
+			}
+			if cycle+1 < op.N[1] {
+				for i := 0; i < op.N[3]; i++ {
+					c := w.NewClient(fmt.Sprintf("u%d-%d", cycle, i), fmt.Sprintf("10.1.%d.%d", cycle, i+1))
+					if c.Login("guest", "", c.Name, 1) {
+						users++
+					}
+				}
+				simrt.Sleep(290 * time.Second) // the next cycle starts 300 s after the previous one
+			}
+		}
+	})
+	w.Sim.Run()
+}
+
 
 func runC01(w *World) {
 	for _, op := range w.Case.Ops {
+		if op.K == "trackers" {
+			c01Trackers(w, op)
+			continue
+		}
 		o := c01Objects[op.N[0]%len(c01Objects)]
 		mk, want, dec := o.Make(rand.New(rand.NewSource(int64(op.N[1]))))
 		srng := rand.New(rand.NewSource(int64(op.N[2])))
